@@ -56,6 +56,7 @@ def run(repo, rep, tier):
     r4 = rep.rule('C19.R4', 'statistics/recorder bookkeeping per operation')
     r5 = rep.rule('C19.R5', 'recorders are optional')
     r6 = rep.rule('C19.R6', 'the password does not flow to observers')
+    statistics_reentry_rule(repo, rep)
     ops = operations(repo)
     conn = repo.cls(OPS, 'WBEMConnection')
 
@@ -539,3 +540,118 @@ def run(repo, rep, tier):
                         'a whole on a path where it is not None: the '
                         'password appears in %s() and in the connection log '
                         'record' % mn.strip('_'))
+
+
+def _stat_name_template(expr, func):
+    """constant prefix of the statistics name (up to the first formatted
+    value), resolving a local assigned once; None if not evident"""
+    if isinstance(expr, ast.Name):
+        defs = [n.value for n in walk_no_nested(func.node)
+                if isinstance(n, ast.Assign) and len(n.targets) == 1 and
+                isinstance(n.targets[0], ast.Name) and
+                n.targets[0].id == expr.id]
+        if len(defs) != 1:
+            return None
+        expr = defs[0]
+    if isinstance(expr, ast.Constant) and isinstance(expr.value, str):
+        return expr.value + '\0'
+    if isinstance(expr, ast.JoinedStr):
+        pre = ''
+        for v in expr.values:
+            if isinstance(v, ast.Constant):
+                pre += v.value
+            else:
+                return pre
+        return pre + '\0'
+    return None
+
+
+def statistics_reentry_rule(repo, rep):
+    """C19.R9: an operation statistic has one timer.  A block
+    `with self.statistics(name)` that (directly or through methods of the
+    same class) opens another statistics context whose name can be the same
+    - e.g. a function that calls itself for each list item - stops that
+    timer in the inner exit and raises RuntimeError in the outer one, but
+    only when statistics are enabled.  Allowed when Statistics.__enter__
+    recognises a name that is already on its context stack."""
+    r9 = rep.rule('C19.R9', 'statistics contexts are not re-entered with the '
+                  'same name (or the context manager is re-entrant)')
+    st = repo.cls(STAT, 'Statistics')
+    ent = st.methods.get('__enter__')
+    if ent is None:
+        raise AnalysisError('Statistics.__enter__ vanished')
+    reentrant = False
+    for n in walk_no_nested(ent.node):
+        if isinstance(n, ast.If) and '_cm_stack' in norm(n.test, 400):
+            calls = [dotted(c.func) or '' for b in n.body
+                     for c in ast.walk(b) if isinstance(c, ast.Call)]
+            if not any(c.endswith('start_timer') for c in calls) and \
+                    any(isinstance(b, ast.Return) for b in n.body):
+                reentrant = True
+    r9.functions.add(ent.fq)
+    opens = {}       # func fq -> [(with node, template)]
+    funcs = {}
+    for m in repo.modules.values():
+        for f in m.all_funcs():
+            for w in walk_no_nested(f.node):
+                if not isinstance(w, ast.With):
+                    continue
+                for it in w.items:
+                    c = it.context_expr
+                    if isinstance(c, ast.Call) and \
+                            (dotted(c.func) or '').endswith('.statistics') \
+                            and c.args:
+                        opens.setdefault(f.fq, []).append(
+                            (w, _stat_name_template(c.args[0], f)))
+                        funcs[f.fq] = f
+    if len(opens) < 3:
+        raise AnalysisError('only %d statistics contexts found' % len(opens))
+
+    def callees(f, body, depth=0, seen=None):
+        seen = seen if seen is not None else set()
+        out = []
+        for b in body:
+            for c in ast.walk(b):
+                if not isinstance(c, ast.Call):
+                    continue
+                d = dotted(c.func) or ''
+                if d.startswith('self.') and d.count('.') == 1 and \
+                        f.cls is not None:
+                    g = f.cls.find_method(d[5:])
+                    if g is None or g.fq in seen:
+                        continue
+                    seen.add(g.fq)
+                    out.append((g, c))
+                    if depth < 2 and g.fq not in opens:
+                        out += callees(g, g.body, depth + 1, seen)
+        return out
+    for fq, lst in sorted(opens.items()):
+        f = funcs[fq]
+        for w, tpl in lst:
+            r9.sites += 1
+            r9.functions.add(f.fq)
+            clash = []
+            for g, c in callees(f, w.body):
+                for _w2, tpl2 in opens.get(g.fq, []):
+                    if tpl is None or tpl2 is None or tpl == tpl2 or \
+                            (not tpl.endswith('\0') and
+                             tpl2.startswith(tpl)) or \
+                            (not tpl2.endswith('\0') and
+                             tpl.startswith(tpl2)):
+                        clash.append((g, c))
+            ok = reentrant or not clash
+            r9.ob(ok, f.qualname, {'name': tpl, 'nested_same_name': [
+                g.qualname for g, _ in clash], 'reentrant': reentrant})
+            if not ok:
+                g, c = clash[0]
+                rep.finding(r9, f.qualname, norm(c, 70), 'timer-reentered',
+                            f.file, c.lineno,
+                            'inside `with self.statistics(%r...)` the call '
+                            '%s opens a statistics context whose name can '
+                            'be the same: the inner exit stops the only '
+                            'timer of that operation statistic and the '
+                            'outer exit raises RuntimeError(stop_timer() '
+                            'called without preceding start_timer()) - '
+                            'with stats_enabled=True only, so enabling '
+                            'statistics changes the outcome of the call'
+                            % ((tpl or '').rstrip('\0'), norm(c, 60)))
